@@ -100,7 +100,13 @@ claim("C04", "symbolic evaluation of the join operators' combine/partitionNames 
       "handles all 8 modes (R04b). Also served by C01/R01d (rows of two relations only meet under projectors). Row contents, column permutations "
       "inside the positional joins, nest/unnest inversion and rank values are value-level and not decided.", NOTE, "DESIGN.md §3 C04")
 
-for pid in ["C02","C05","C07","C12","C13"]:
+claim("C12", "table extraction and agreement (printer escape table vs reader escape switch, printer identifier pattern vs grammar IDENT), transitive field-read sets of Equal vs Format",
+      "Decides codec agreement at the table level: (R12a) every backslash-letter the printer emits is mapped back to the same character by the "
+      "reader, and the reader handles \\\\, both quotes and \\x; (R12b) for all 18 value types, every field Equal reads is read by Format/String "
+      "(Bytes.offset is not: known finding); (R12c) names are printed unquoted only when they match the grammar's IDENT (pattern equality; no unicode "
+      "classification). The escape reader's index arithmetic (\\xNN off-by-one), number formatting and nesting are value-level and not decided.", NOTE, "DESIGN.md §3 C12")
+
+for pid in ["C02","C05","C07","C13"]:
     na(pid, "check under construction in this session (see DESIGN.md §3); not claimed until its rules are registered")
 na("C14", "agreement of a hand-written array matcher with strings/bytes over all sequences is a relation between runtime values computed by "
           "loops with data-dependent indices; no sound structural clause with teeth exists (DESIGN.md §3 C14)")
